@@ -2,13 +2,306 @@
 
 package checks
 
-import "github.com/cloudwego/frugal/zverif/harness"
+import (
+	"bytes"
+	"fmt"
+	"sort"
+	"unsafe"
+
+	"github.com/anishathalye/porcupine"
+	freflect "github.com/cloudwego/frugal/internal/reflect"
+	"github.com/cloudwego/frugal/zverif/bfs"
+	"github.com/cloudwego/frugal/zverif/explore"
+	"github.com/cloudwego/frugal/zverif/harness"
+	"github.com/cloudwego/frugal/zverif/hooks"
+	"github.com/cloudwego/frugal/zverif/universe"
+)
 
 const e3Available = true
 
 // e3Phases returns the component (explicit-state, engine E3) phases of a property.
 func e3Phases(id string) []*harness.Phase {
-	return e3Registry[id]
+	switch id {
+	case "C06":
+		return []*harness.Phase{{Name: "component-allocator", NoShard: true, Custom: e3Span,
+			Rule: "explicit-state BFS over the real bump allocator: 19 sizes x 4 alignments per step, depth 4 (thorough 6), state = (offset, block size); invariant on every transition: result aligned, inside the current block, disjoint from everything handed out of that block"}}
+	case "C09":
+		return []*harness.Phase{{Name: "component-bitset", NoShard: true, Custom: e3Bitset,
+			Rule: "explicit-state BFS over the real presence bitset: set/unset/test of 11 boundary ids, to closure (<= depth 12), against a Go map"}}
+	case "C11":
+		return []*harness.Phase{{Name: "component-unknown-index", NoShard: true, Custom: e3Unknown,
+			Rule: "explicit-state BFS over the real unknown-field index: Add of 5 ranges / Reset / Copy, depth 4 (thorough 5), against a byte-slice model"}}
+	case "C08":
+		return []*harness.Phase{{Name: "component-descmap-linearizability", Bound: 3, Gate: true,
+			Rule: "2-3 threads x <=2 Get/Set operations on three keys forced into one bucket of the real descriptor map, all interleavings with <=3 preemptions; each history checked for linearizability against a plain map (porcupine)",
+			Body: e3DescMap}}
+	}
+	return nil
 }
 
-var e3Registry = map[string][]*harness.Phase{}
+func e3Report(p *harness.PhaseCtx, prop, what string, r *bfs.Result, describe func([]int) interface{}) {
+	p.R.States, p.R.Transitions, p.R.Executions = r.States, r.Transitions, r.Transitions
+	p.R.MaxDepth = r.Depth
+	p.R.Distinct = r.States
+	p.R.CapHit = r.CapHit
+	if r.Violation != "" {
+		p.R.Failures = append(p.R.Failures, &harness.FailureRec{Property: prop, Phase: p.R.Phase, Class: "component-invariant", Msg: what + ": " + r.Violation,
+			Case: map[string]interface{}{"class": "component-invariant", "operations": describe(r.Path)}, Choices: r.Path})
+	}
+	p.R.Samples = append(p.R.Samples, map[string]interface{}{"component": what, "states": r.States, "transitions": r.Transitions, "depth": r.Depth})
+}
+
+// ---- span ----
+
+var spanSizes = []int{1, 2, 3, 7, 8, 9, 15, 16, 17, 255, 256, 257, 1024, 2040, 2041, 2047, 2048, 2049, 4096}
+var spanAligns = []int{1, 2, 4, 8}
+
+func e3Span(p *harness.PhaseCtx) {
+	depth := 4
+	if p.Tier == universe.Thorough {
+		depth = 6
+	}
+	type blk struct{ lo, hi uintptr }
+	replay := func(path []int) (string, string) {
+		s := freflect.NewVerifSpan()
+		var handed []blk
+		_, base, _ := s.State()
+		for step, op := range path {
+			n, al := spanSizes[op/len(spanAligns)], spanAligns[op%len(spanAligns)]
+			ptr := uintptr(s.Malloc(n, al))
+			off, b, size := s.State()
+			if b != base {
+				base, handed = b, nil
+			}
+			if ptr%uintptr(al) != 0 {
+				return "", fmt.Sprintf("step %d: Malloc(%d, align %d) returned a misaligned address (mod %d = %d)", step, n, al, al, ptr%uintptr(al))
+			}
+			if ptr < b || ptr+uintptr(n) > b+uintptr(size) {
+				return "", fmt.Sprintf("step %d: Malloc(%d, align %d) returned memory outside the current block (block offset %d, block size %d)", step, n, al, int64(ptr)-int64(b), size)
+			}
+			for _, h := range handed {
+				if ptr < h.hi && h.lo < ptr+uintptr(n) {
+					return "", fmt.Sprintf("step %d: Malloc(%d, align %d) overlaps memory handed out earlier from the same block", step, n, al)
+				}
+			}
+			handed = append(handed, blk{ptr, ptr + uintptr(n)})
+			if uintptr(off) > uintptr(size) {
+				return "", fmt.Sprintf("step %d: offset %d beyond block size %d", step, off, size)
+			}
+		}
+		off, _, size := s.State()
+		return fmt.Sprintf("%d/%d", off, size), ""
+	}
+	r := bfs.Run(bfs.Config{NumOps: len(spanSizes) * len(spanAligns), MaxDepth: depth, Replay: replay, Deadline: p.Deadline})
+	e3Report(p, "C06", "bump allocator", r, func(path []int) interface{} {
+		var o []string
+		for _, op := range path {
+			o = append(o, fmt.Sprintf("Malloc(%d, align %d)", spanSizes[op/len(spanAligns)], spanAligns[op%len(spanAligns)]))
+		}
+		return o
+	})
+}
+
+// ---- bitset ----
+
+var bitIDs = []uint16{0, 1, 62, 63, 64, 65, 127, 128, 4095, 4096, 65535}
+
+func e3Bitset(p *harness.PhaseCtx) {
+	replay := func(path []int) (string, string) {
+		var b freflect.VerifBitset
+		model := map[uint16]bool{}
+		for step, op := range path {
+			id := bitIDs[op%len(bitIDs)]
+			switch op / len(bitIDs) {
+			case 0:
+				b.Set(id)
+				model[id] = true
+			case 1:
+				b.Unset(id)
+				delete(model, id)
+			case 2:
+				if b.Test(id) != model[id] {
+					return "", fmt.Sprintf("step %d: test(%d)=%v, the model says %v", step, id, b.Test(id), model[id])
+				}
+			}
+			// every observed id must agree after every step
+			for _, x := range bitIDs {
+				if b.Test(x) != model[x] {
+					return "", fmt.Sprintf("step %d: after the operation, test(%d)=%v, the model says %v", step, x, b.Test(x), model[x])
+				}
+			}
+		}
+		var ks []int
+		for k := range model {
+			ks = append(ks, int(k))
+		}
+		sort.Ints(ks)
+		return fmt.Sprint(ks), ""
+	}
+	r := bfs.Run(bfs.Config{NumOps: 3 * len(bitIDs), MaxDepth: 12, Replay: replay, Deadline: p.Deadline})
+	e3Report(p, "C09", "presence bitset", r, func(path []int) interface{} {
+		var o []string
+		for _, op := range path {
+			o = append(o, fmt.Sprintf("%s(%d)", []string{"set", "unset", "test"}[op/len(bitIDs)], bitIDs[op%len(bitIDs)]))
+		}
+		return o
+	})
+}
+
+// ---- unknownFields ----
+
+var ufRanges = [][2]int{{0, 4}, {4, 7}, {11, 1}, {3, 20}, {30, 10}}
+
+func e3Unknown(p *harness.PhaseCtx) {
+	depth := 4
+	if p.Tier == universe.Thorough {
+		depth = 5
+	}
+	src := make([]byte, 64)
+	for i := range src {
+		src[i] = byte(i*7 + 1)
+	}
+	replay := func(path []int) (string, string) {
+		var u freflect.VerifUnknown
+		u.Reset()
+		var model [][2]int
+		for step, op := range path {
+			switch {
+			case op < len(ufRanges):
+				u.Add(ufRanges[op][0], ufRanges[op][1])
+				model = append(model, ufRanges[op])
+			case op == len(ufRanges):
+				u.Reset()
+				model = nil
+			default:
+				var want []byte
+				for _, r := range model {
+					want = append(want, src[r[0]:r[0]+r[1]]...)
+				}
+				if u.Size() != len(want) {
+					return "", fmt.Sprintf("step %d: Size()=%d, the model says %d", step, u.Size(), len(want))
+				}
+				got := u.Copy(src)
+				if !bytes.Equal(got, want) {
+					return "", fmt.Sprintf("step %d: Copy() = %x, the model says %x", step, got, want)
+				}
+				if len(got) > 0 && uintptr(unsafe.Pointer(&got[0])) >= uintptr(unsafe.Pointer(&src[0])) && uintptr(unsafe.Pointer(&got[0])) < uintptr(unsafe.Pointer(&src[0]))+64 {
+					return "", fmt.Sprintf("step %d: Copy() aliases the source buffer", step)
+				}
+			}
+		}
+		return fmt.Sprint(model), ""
+	}
+	r := bfs.Run(bfs.Config{NumOps: len(ufRanges) + 2, MaxDepth: depth, Replay: replay, Deadline: p.Deadline})
+	e3Report(p, "C11", "unknown-field index", r, func(path []int) interface{} {
+		var o []string
+		for _, op := range path {
+			switch {
+			case op < len(ufRanges):
+				o = append(o, fmt.Sprintf("Add(%d,%d)", ufRanges[op][0], ufRanges[op][1]))
+			case op == len(ufRanges):
+				o = append(o, "Reset")
+			default:
+				o = append(o, "Copy")
+			}
+		}
+		return o
+	})
+}
+
+// ---- descriptor map: linearizability under all interleavings ----
+
+type dmInput struct {
+	set bool
+	key int
+	tok int
+}
+
+var dmModel = porcupine.Model{
+	Init: func() interface{} { return [3]int{-1, -1, -1} },
+	Step: func(state, input, output interface{}) (bool, interface{}) {
+		st := state.([3]int)
+		in := input.(dmInput)
+		if in.set {
+			st[in.key] = in.tok
+			return true, st
+		}
+		return output.(int) == st[in.key], st
+	},
+	Equal: func(a, b interface{}) bool { return a.([3]int) == b.([3]int) },
+}
+
+func e3DescMap(c *explore.C) {
+	nthreads := 2 + c.Choose(2, explore.Data, "threads")
+	// per thread: 1-2 operations, each Get(key) or Set(key, token); tokens are distinct per Set
+	type opSpec struct {
+		set bool
+		key int
+	}
+	var plan [][]opSpec
+	for t := 0; t < nthreads; t++ {
+		n := 1 + c.Choose(2, explore.Data, "ops")
+		if nthreads == 3 {
+			n = 1
+		}
+		var ops []opSpec
+		for i := 0; i < n; i++ {
+			k := c.Choose(6, explore.Data, "op")
+			ops = append(ops, opSpec{set: k >= 3, key: k % 3})
+		}
+		plan = append(plan, ops)
+	}
+	c.Gate()
+	harness.Cur.Crumb(c.Choices())
+	m := freflect.NewVerifDescMap(16)
+	keys := []uintptr{0x1230, 0x1230 + (freflect.VerifDescMapBuckets + 1), 0x1230 + 2*(freflect.VerifDescMapBuckets+1)} // one bucket
+	var clock int64
+	var history []porcupine.Operation
+	bodies := make([]func(), nthreads)
+	tok := 0
+	for t := range plan {
+		t := t
+		toks := make([]int, len(plan[t]))
+		for i := range toks {
+			toks[i] = tok
+			tok++
+		}
+		bodies[t] = func() {
+			for i, op := range plan[t] {
+				clock++
+				call := clock
+				in := dmInput{set: op.set, key: op.key, tok: toks[i]}
+				out := 0
+				if op.set {
+					m.Set(keys[op.key], toks[i])
+				} else {
+					out = m.Get(keys[op.key])
+				}
+				clock++
+				history = append(history, porcupine.Operation{ClientId: t, Input: in, Call: call, Output: out, Return: clock})
+			}
+		}
+	}
+	run := hooks.RunThreads(c, 2000, nil, bodies...)
+	cs := func(class string) *harness.Case {
+		return &harness.Case{Property: "C08", Class: class, Type: "descriptor map component", Detail: map[string]interface{}{"plan": fmt.Sprint(plan), "history": fmt.Sprint(history)}}
+	}
+	if run.Deadlock != "" || run.Livelock {
+		c.Fail("descriptor map operations deadlock/livelock: "+run.Deadlock, cs("deadlock"))
+		return
+	}
+	for t, th := range run.Threads() {
+		if th.Panic != nil {
+			c.Fail(fmt.Sprintf("thread %d panics: %v", t, th.Panic), cs("panic"))
+			return
+		}
+	}
+	if !porcupine.CheckOperations(dmModel, history) {
+		c.Fail("the call/return history of concurrent Get/Set on one bucket is not linearizable", cs("not-linearizable"))
+		return
+	}
+	harness.Cur.Outcome(harness.Hash64([]byte(fmt.Sprint(plan)), []byte(fmt.Sprint(c.Choices()))), fmt.Sprintf("threads=%d", nthreads))
+	harness.Cur.Sample(func() interface{} {
+		return map[string]interface{}{"plan": fmt.Sprint(plan), "history_len": len(history)}
+	})
+}
